@@ -120,7 +120,16 @@ Annotated == { [c EXCEPT !.ann = a] : a \in Anns \ {"none"},
 
 CONSTANT FullPairs
 WithAnn(S) == { [kind |-> c.kind, nrefs |-> c.nrefs, closed |-> c.closed, tags |-> c.tags, ann |-> "none"] : c \in S }
-Cases == WithAnn(Singles \cup Cross \cup Pairs(FullPairs) \cup Relations \cup Noisy) \cup Annotated
+\* multi-values: two listed values of the key joined by a separator, either order, and a listed value with a separator in front
+\* of or behind it -- none of these is a listed value, whatever a lookup structure makes of the separator
+Seps == {"|", ";", ",", " "}
+ListKeys == {k \in RuleKeys : Table[k].vals # {}}
+Joined == UNION { { [kind |-> "way", nrefs |-> 5, closed |-> TRUE, tags |-> << <<k, ab[1] \o sp \o ab[2]>> >>] :
+                      ab \in {x \in Table[k].vals \X Table[k].vals : x[1] # x[2]}, sp \in (IF FullPairs THEN Seps ELSE {"|", ";"}) }
+                  \cup { [kind |-> "way", nrefs |-> 5, closed |-> TRUE, tags |-> << <<k, v>> >>] :
+                      v \in UNION {{sp \o a, a \o sp} : a \in Table[k].vals, sp \in Seps} } : k \in ListKeys }
+
+Cases == WithAnn(Singles \cup Cross \cup Pairs(FullPairs) \cup Relations \cup Noisy \cup Joined) \cup Annotated
 
 VARIABLE case
 Init == case \in Cases
